@@ -16,6 +16,7 @@ CHECKS = {
     "C01": ("hf", {}), "C02": ("hf", {}), "C10": ("hf", {}), "C12": ("hf", {}),
     "C20": ("c20", {}),
     "C03": ("c03", {}),
+    "C11": ("c11", {}),
 }
 
 
